@@ -100,10 +100,17 @@ from . import tlc
 from .core import Check, MachineryError, workdir
 
 PID = "C20"
-N_DIRS, N_FILES, N_DIRNAMES, N_VARIANTS, N_SFX = 11, 21, 5, 20, 4
-LIGHT_VARIANTS = list(range(10, 21))        # the spelling variants of MC_C20!Variants: trees over LIGHT_CODES only
+N_DIRS, N_FILES, N_DIRNAMES, N_VARIANTS, N_SFX = 11, 21, 5, 24, 4
+LIGHT_VARIANTS = list(range(10, 25))        # the spelling / link variants of MC_C20!Variants: trees over LIGHT_CODES only
 LIGHT_EXTRA = [104, 501, 401, 102, 107, 10201]
-APPS = (("genapp", ("proj", "genapp")), ("pk.napp", ("proj", "pk", "napp")), ("extapp", ("site", "extapp")))
+# (app name, where the package really lies); "lnkapp" lies in S/rel, which is on sys.path only as the symbolic
+# link S/cur -> S/rel (Autodiscover: reach "pathlink")
+APPS = (("genapp", ("proj", "genapp")), ("pk.napp", ("proj", "pk", "napp")), ("extapp", ("site", "extapp")),
+        ("lnkapp", ("rel", "lnkapp")))
+PATHLINK_APPS = (["lnkapp"],)
+APP_TOPS = tuple(sorted({n.split(".")[0] for n, _ in APPS}))
+APP_KEEP = sorted({".".join(n.split(".")[:i]) for n, _ in APPS for i in range(1, len(n.split(".")) + 1)}
+                  | {n + ".apps" for n, _ in APPS})
 PURGE_TOPS = ("comps", "outer", "assets", "components", "lib", "ui", "lnk", "conf")
 
 
@@ -175,7 +182,10 @@ class World:
             (p / "apps.py").write_text(
                 f"from django.apps import AppConfig\n\n\nclass Cfg(AppConfig):\n    name = {name!r}\n")
         (self.proj / "pk" / "__init__.py").write_text("")
-        self.paths = [str(self.proj), str(self.projb), str(self.site)]
+        os.symlink(self.S / "rel", self.S / "cur")    # the sys.path entry through which lnkapp is located
+        (self.S / "shared").mkdir()                   # targets of app directories that are links (not importable)
+        self.links: List[Path] = []                   # app directories of the current case that are symbolic links
+        self.paths = [str(self.proj), str(self.projb), str(self.site), str(self.S / "cur")]
         sys.path[:0] = self.paths
         self._ov = override_settings(INSTALLED_APPS=("django_components",) + tuple(n for n, _ in APPS))
         self._ov.enable()
@@ -195,12 +205,21 @@ class World:
         """Where a root of the abstract case lives: derived from kind and prefix."""
         pre = root["prefix"]
         if root["kind"] == "app":
-            for name, rel in APPS:
-                pk = name.split(".")
-                if root["app"] == pk and pre[:len(pk)] == pk and len(pre) > len(pk):
-                    return self.S.joinpath(*rel).joinpath(*pre[len(pk):])
-            raise MachineryError(f"no generated app for prefix {pre}")
+            if (root.get("reach", "plain") == "pathlink") != (root["app"] in PATHLINK_APPS):
+                raise MachineryError(f"reach of an app root does not fit the generated app: {root}")
+            if root.get("reach", "plain") == "dirlink":          # the real directory; <app>/<path> is a link to it (reset)
+                return self.S / "shared" / "_".join(pre)
+            return self.app_dir(root)
         return (self.projb if root["globmeta"] else self.proj).joinpath(*pre)
+
+    def app_dir(self, root: Dict[str, Any]) -> Path:
+        """<app>/<path> at the real location of the app package."""
+        pre = root["prefix"]
+        for name, rel in APPS:
+            pk = name.split(".")
+            if root["app"] == pk and pre[:len(pk)] == pk and len(pre) > len(pk):
+                return self.S.joinpath(*rel).joinpath(*pre[len(pk):])
+        raise MachineryError(f"no generated app for prefix {pre}")
 
     def base_dir(self, bracket: bool, spell: str) -> Path:
         """BASE_DIR as the configuration spells it."""
@@ -214,6 +233,9 @@ class World:
     def reset(self, roots: List[Dict[str, Any]]) -> None:
         """Remove every root of the previous case, create the (empty) roots of this one."""
         self.materialised = None
+        for ln in self.links:
+            ln.unlink()
+        self.links = []
         for d in self.active:
             shutil.rmtree(d, ignore_errors=True)
         for base in (self.proj, self.projb):
@@ -227,6 +249,11 @@ class World:
         for d in self.active:
             d.mkdir(parents=True)
         for r, d in zip(roots, self.active):
+            if r["kind"] == "app" and r.get("reach", "plain") == "dirlink":
+                ln = self.app_dir(r)
+                ln.parent.mkdir(parents=True, exist_ok=True)
+                os.symlink(d, ln)
+                self.links.append(ln)
             if r.get("alias"):
                 ln = (self.projb if r["globmeta"] else self.proj).joinpath(*r["alias"])
                 if ln.parent.name != "lnk" or r["kind"] != "dirs":
@@ -322,12 +349,12 @@ class World:
 
     # -- imports -------------------------------------------------------
     def purge(self) -> None:
-        keep = {"genapp", "genapp.apps", "pk", "pk.napp", "pk.napp.apps", "extapp", "extapp.apps"}
+        keep = set(APP_KEEP)
         for m in list(sys.modules):
             top = m.split(".")[0]
             if m in keep:
                 continue
-            if top in PURGE_TOPS or top in ("genapp", "pk", "extapp"):
+            if top in PURGE_TOPS or top in APP_TOPS:
                 del sys.modules[m]
         importlib.invalidate_caches()
 
@@ -405,7 +432,7 @@ _exports: Dict[str, Tuple[List[Any], int, int]] = {}
 def replay_row(chk: Check, world: World, row: Dict[str, Any]) -> None:
     roots = row["roots"]
     # consecutive cases over the same directories and trees (the configuration family) share the files on disk
-    sig = json.dumps([[[str(world.root_dir(r)), r.get("alias")] for r in roots],
+    sig = json.dumps([[[str(world.root_dir(r)), r.get("alias"), r.get("reach", "plain")] for r in roots],
                       [sorted([e["kind"], e["parts"]] for e in t) for t in row["trees"]]])
     if world.materialised != sig:
         world.reset(roots)
@@ -553,7 +580,7 @@ def startup_probe(chk: Check, world: World, row: Dict[str, Any], script: Path) -
             world.mk(k, e["kind"], e["parts"])
     st = world.settings_for(roots, row["cfg"])
     spec = {"form": st["form"], "syspath": world.paths, "S": str(world.S), "apps": ["django_components"] + [n for n, _ in APPS],
-            "ignore": ["genapp", "genapp.apps", "pk", "pk.napp", "pk.napp.apps", "extapp", "extapp.apps"],
+            "ignore": APP_KEEP,
             "BASE_DIR": _enc(st["BASE_DIR"]), "COMPONENTS": {k: _enc(v) for k, v in st["COMPONENTS"].items()},
             "STATICFILES_DIRS": _enc(st["STATICFILES_DIRS"])}
     sp = script.with_suffix(".json")
@@ -619,7 +646,8 @@ PROJ_CANDS = [["comps"], ["outer", "comps"], ["lib", "ui", "c"], ["assets"], ["l
 # multi-segment path ("parts", "sec") is itself a path - component directories never nest
 APP_CANDS = [(["genapp"], ["components"]), (["pk", "napp"], ["components"]), (["extapp"], ["components"]),
              (["genapp"], ["ui"]), (["pk", "napp"], ["ui"]), (["extapp"], ["widgets"]),
-             (["extapp"], ["parts", "inner"]), (["pk", "napp"], ["parts", "inner"]), (["genapp"], ["sec", "w"])]
+             (["extapp"], ["parts", "inner"]), (["pk", "napp"], ["parts", "inner"]), (["genapp"], ["sec", "w"]),
+             (["lnkapp"], ["components"]), (["lnkapp"], ["ui"]), (["lnkapp"], ["parts", "inner"])]
 APP_PATHS = [["components"], ["ui"], ["widgets"], ["parts", "inner"], ["sec", "w"]]
 APP_SPELLS = ["plain", "plain", "slash", "dot"]
 FORMS = ["str", "str", "path", "tuple", "tuple-path"]
@@ -640,9 +668,10 @@ def pick_config(rnd: random.Random, clean: bool = False) -> Tuple[List[Dict[str,
     if rnd.random() < 0.06:
         # a project path with glob metacharacters
         return ([{"id": "dirs-bracket", "kind": "dirs", "prefix": ["comps"], "app": [], "alias": [], "globmeta": True,
+                  "reach": "plain",
                   "src": [{"in": "dirs", "form": "str", "spell": rnd.choice(["plain", "slash", "dotdot"])}]},
                  {"id": "app", "kind": "app", "prefix": ["extapp", "components"], "app": ["extapp"], "alias": [],
-                  "globmeta": False, "src": []}],
+                  "globmeta": False, "src": [], "reach": "plain"}],
                 {"dirs": "set", "appdirs": "unset", "appnames": [], "form": form, "base": "plain"})
     cands = rnd.sample(PROJ_CANDS, rnd.randint(1, 4))
     dirs_state = rnd.choice(["unset", "unset", "empty", "nonempty", "nonempty", "nonempty"])
@@ -665,10 +694,13 @@ def pick_config(rnd: random.Random, clean: bool = False) -> Tuple[List[Dict[str,
         if pre == ["components"]:
             src.append({"in": "default", "form": "", "spell": "plain"})
         roots.append({"id": "p:" + "/".join(pre), "kind": "dirs", "prefix": pre, "app": [], "alias": alias,
-                      "globmeta": False, "src": src})
-    for app, path in rnd.sample(APP_CANDS, rnd.choice([0, 1, 1, 2, 3])):
+                      "globmeta": False, "src": src, "reach": "plain"})
+    for app, path in rnd.sample(APP_CANDS, rnd.choice([0, 1, 1, 2, 2, 3, 4])):
+        # how the file system leads to the app directory: the app located through a linked sys.path entry, or the
+        # directory itself a symbolic link to a shared directory
+        reach = "pathlink" if app in PATHLINK_APPS else "dirlink" if rnd.random() < 0.3 else "plain"
         roots.append({"id": "a:" + "/".join(app + path), "kind": "app", "prefix": app + path, "app": app, "alias": [],
-                      "globmeta": False, "src": []})
+                      "globmeta": False, "src": [], "reach": reach})
     app_state = rnd.choice(["unset", "unset", "unset", "empty", "names", "names", "names"])
     names = [{"segs": p, "spell": rnd.choice(APP_SPELLS)} for p in rnd.sample(APP_PATHS, rnd.randint(1, 3))] \
         if app_state == "names" else []
